@@ -47,8 +47,10 @@ type WW struct {
 	Strict       bool
 	NoFaults     bool
 	forceSendAll bool
-	LastOp       string
-	opLog        []opMark
+	// NextPlans: fault plans for the next wallet operation of send / receive / melt / reclaim (consumed by it)
+	NextPlans []*FaultPlan
+	LastOp    string
+	opLog     []opMark
 	// notUnspentSeen: wallet|Y of spendable proofs already reported as not UNSPENT at the mint
 	notUnspentSeen map[string]bool
 	Deficit        map[string]int64
@@ -193,6 +195,12 @@ func keysetsOf(ps cashu.Proofs) int {
 	return len(s)
 }
 
+func (ww *WW) takePlans() []*FaultPlan {
+	p := ww.NextPlans
+	ww.NextPlans = nil
+	return p
+}
+
 // StepSend: Wallet.Send; the C18 oracle judges the returned proofs; the token goes to the channel.
 func (ww *WW) StepSend() *OutToken {
 	w := ww.pickWallet()
@@ -216,7 +224,7 @@ func (ww *WW) StepSend() *OutToken {
 	before := n.View()
 	var proofs cashu.Proofs
 	var err error
-	ww.W.WalletOp(w, ww.name("send."+w), nil, func(wl *wallet.Wallet) {
+	ww.W.WalletOp(w, ww.name("send."+w), ww.takePlans(), func(wl *wallet.Wallet) {
 		proofs, err = wl.Send(amount, ww.mintURL(mint), fees)
 	})
 	allFee := ww.feeOfProofs(mint, before.Proofs)
@@ -343,7 +351,7 @@ func (ww *WW) StepReceive() {
 	ww.op(fmt.Sprintf("w.receive %s sigall=%v crossmint=%v", tok.Kind, sigall, cross))
 	var got uint64
 	var err error
-	ww.W.WalletOp(to, ww.name("recv."+to), nil, func(wl *wallet.Wallet) {
+	ww.W.WalletOp(to, ww.name("recv."+to), ww.takePlans(), func(wl *wallet.Wallet) {
 		t, derr := cashu.DecodeToken(tok.Str)
 		if derr != nil {
 			err = derr
@@ -456,7 +464,7 @@ func (ww *WW) StepMelt() {
 	var state string
 	var err error
 	var qid string
-	ww.W.WalletOp(w, ww.name("melt."+w), nil, func(wl *wallet.Wallet) {
+	ww.W.WalletOp(w, ww.name("melt."+w), ww.takePlans(), func(wl *wallet.Wallet) {
 		q, e := wl.RequestMeltQuote(inv.Bolt11, ww.mintURL(mint))
 		if e != nil {
 			err = e
@@ -584,7 +592,7 @@ func (ww *WW) StepReclaim() {
 	}
 	remove := ww.T.Chance("reclaim.remove", 1, 2)
 	ww.op(fmt.Sprintf("w.reclaim remove=%v", remove))
-	ww.W.WalletOp(w, ww.name("reclaim."+w), nil, func(wl *wallet.Wallet) {
+	ww.W.WalletOp(w, ww.name("reclaim."+w), ww.takePlans(), func(wl *wallet.Wallet) {
 		if remove {
 			wl.RemoveSpentProofs()
 		} else {
